@@ -23,7 +23,7 @@ def main():
     replay = json.load(open(a.replay)) if a.replay else None
     ctx = core.Ctx(a.pid, a.tier, seed, replay)
     pre_fail = []
-    GEN = {'C01': ('gen_model', 'Model'), 'C02': ('gen_model', 'Model'), 'C03': ('gen_interp', 'Interp'), 'C06': ('gen_infer', 'Infer'), 'C07': ('gen_infer', 'Infer'), 'C08': ('gen_infer', 'Infer')}
+    GEN = {'C01': ('gen_model', 'Model'), 'C02': ('gen_model', 'Model'), 'C03': ('gen_interp', 'Interp'), 'C06': ('gen_infer', 'Infer'), 'C07': ('gen_infer', 'Infer'), 'C08': ('gen_infer', 'Infer'), 'C10': ('gen_model', 'Model')}
     if a.pid in GEN:
         # the generated part of the model is re-derived from the current source before anything is built
         try:
